@@ -1126,15 +1126,23 @@ func c05TableAPI(r *Run, m *ServerModel) {
 				okDel = true
 			}
 		}
-		del := false
-		ast.Inspect(fi.Decl.Body, func(n ast.Node) bool {
-			if c, ok := n.(*ast.CallExpr); ok {
-				if id, ok := c.Fun.(*ast.Ident); ok && id.Name == "delete" {
-					del = true
+		// the entry is deleted on every path (the event "delete:<map>" of the site analysis;
+		// the delete may be written in a private helper)
+		del := len(m.DB.Exits[fi]) > 0
+		for _, ex := range m.DB.Exits[fi] {
+			if ex.Fn != ast.Node(fi.Decl) || ex.St.Dead {
+				continue
+			}
+			has := false
+			for k := range ex.St.Must {
+				if strings.HasPrefix(k, "delete:") && strings.HasSuffix(k, ".fids") {
+					has = true
 				}
 			}
-			return true
-		})
+			if !has {
+				del = false
+			}
+		}
 		r.check(okDel && del, "r3", "DeleteFID: removes the entry and releases the table's reference", fi.Decl.Pos(), "delete + DecRef", "DeleteFID does not both remove the entry and release the table's reference")
 	}
 }
